@@ -233,6 +233,8 @@ class CppEmitter:
             return out
         if k == "opt":
             inner = t[1]
+            if inner == ("unit",):
+                return ["if (%s.has_value()) printf(\"S(())\"); else printf(\"N\");" % e]
             return (["if (%s.has_value()) { printf(\"S(\");" % e] + self.print_stmts("(*%s)" % e, inner, adopt, retv[1] if retv else None)
                     + ["printf(\")\"); } else printf(\"N\");"])
         if k in ("slice", "oslice"):
@@ -325,6 +327,8 @@ class CppEmitter:
                     body.append("printf(\"NOT-REJECTED\");")
                 elif string_ret and ret_t == ("unit",):
                     body.append("pr(std::string_view(%s));" % inner)
+                elif string_ret and ret_t[0] == "opt":
+                    body.append("if (%s.has_value()) { printf(\"S(\"); pr(std::string_view(*%s)); printf(\")\"); } else printf(\"N\");" % (inner, inner))
                 elif string_ret:
                     body += self.print_ret(inner, ret_t, st["ret"], string_ok=True)
                 else:
